@@ -15,7 +15,7 @@ RULE = ("extra-data trajectories of random shots (zeroed flat fire, arcing 5-40 
         "target heights 0.01-60 ft in any distance unit, increasing sequences for the monotonicity clause); a case = "
         "(shot, request); non-trivial when the target row is not the first/last row and at least one other row lies "
         "outside the target")
-MUST_OBSERVE = ["cases_under_other_preferred_units", "danger_spaces", "target_on_rising_branch", "target_on_falling_branch", "inclined_sight_line",
+MUST_OBSERVE = ["canted_shots", "cases_under_other_preferred_units", "danger_spaces", "target_on_rising_branch", "target_on_falling_branch", "inclined_sight_line",
                 "bound_is_interior_row", "bound_is_end_row", "monotonic_pairs", "beyond_rejected", "plain_rejected", "explicit_look_angle_argument", "shot_reaimed_after_fire"]
 ASSUMPTIONS = ["'drop' is the row's drop relative to the sight line (target_drop), as in the reported DangerSpace rows"]
 DIST = si.DIMENSIONS["Distance"]
@@ -96,6 +96,8 @@ def check_case(ctx, case):
             setattr(pb.PreferredUnits, slot, Unit[unit])
         ctx.count("cases_under_other_preferred_units")
     shot = build.shot(case["shot"])
+    if case["shot"].get("cant_deg"):
+        ctx.count("canted_shots")
     calc = Calculator()
     if case.get("zero_ft"):
         try:
@@ -151,7 +153,7 @@ def check_case(ctx, case):
 
 
 def gen_case(rng):
-    s = gen.shot(rng, custom=0.05, cant=False, twist=False, wind_n=rng.choice([0, 0, 1]))
+    s = gen.shot(rng, custom=0.05, cant=rng.random() < 0.25, twist=False, wind_n=rng.choice([0, 0, 1]))   # a canted rifle: the target still stands upright
     style = rng.choice(["flat", "flat", "arc", "arc", "inclined"])
     s["look_deg"] = 0.0
     if style == "flat":
